@@ -23,6 +23,10 @@ CHECKS = {
    text="Seeded exploration of hash epochs (SipHash keys of every std HashMap via a getrandom seam) x source-file creation/discovery order x thread-pool width x histories on one Project / one CodeGenerator, over generated multi-module projects and the dependency-free acceptance projects; every shipped or displayed observable is compared byte for byte with a reference build (fixed epoch, sorted order, one thread, fresh compiler per operation). Sampling, not proof.",
    note="Trusted: the reference build itself; the getrandom seam reaching every RandomState; rayon's real scheduler on width>1 steps (oracle is equality with the sequential reference, so it cannot false-alarm).",
    technique="deterministic simulation: seeded hash-order, discovery-order, pool-width and compiler-instance-history exploration vs reference build"),
+ "C16": dict(engine="sim-proptest", category="exploration", design_ref="DESIGN.md §4 C16",
+   text="Seeded exploration of (fuzzer shape, property, expectation, seed, run count, run context) over properties compiled from source by the real tool-chain, against a shrink-free reference loop built from Prng::from_seed / sample / eval: found-or-not, iteration count, labels and verdict must agree; every counterexample is re-applied, replayed from its recorded choices, compared shortlex with the first failing case, and re-run on the same thread and alone on another thread under another hash epoch. The shrinker's memo table is checked operation by operation against the uncached function over model fuzzers with data-dependent consumption.",
+   note="Trusted: Prng::sample and PropertyTest::eval as building blocks of the reference loop; the harness's own fuzz library (std lib cannot be fetched); replayability is required only for fuzzers that are replay-consistent on the unshrunk case.",
+   technique="deterministic simulation: seeded seeds x fuzzer shapes x run contexts vs shrink-free reference model; model-based check of the shrinker cache over lookup histories"),
  "C17": dict(engine="sim-sched", category="exploration", design_ref="DESIGN.md §4 C17",
    text="Seeded exploration of test-run schedules: the executor seam hands the real tests to 1-16 simulator-owned worker threads in a seeded assignment and order (one released at a time, exactly replayable), plus rayon's real scheduler at widths 2-16; results and result order are compared with the one-at-a-time run, and at every hand-off an ownership audit walks every Rc reachable from every test (no allocation shared between tests, none held from outside the test's own graph, no typed assertion attached). Sampling of schedules; the ownership invariant is decided exactly for every test set explored.",
    note="Trusted: the audited set is what a worker touches on this tree (programs, fuzzer/sampler programs, assertion); tests interleave at whole-test granularity; rayon leg is uncontrolled but its oracle cannot false-alarm.",
